@@ -1,4 +1,10 @@
 (* C10 - formatting an interface definition preserves it and is idempotent *)
 From Coq Require Import List NArith Lia Bool Arith.
-From VL Require Import Idl Format.
+From VL Require Import Idl Format TypeProofs MemberProofs.
 Import ListNotations.
+
+(* every grammar rendering of a definition parses to that definition (the half of the round
+   trip that does not depend on the formatter) *)
+Theorem C10_rendering_parses_back : forall i s, RIdl i s -> parse_idl s = POk i.
+Proof. exact idl_parse. Qed.
+Print Assumptions C10_rendering_parses_back.
